@@ -53,6 +53,10 @@ def make_diff(rng):
             i = rng.choice(body)
             extra = rng.choice(['\x0c', '\x0b', '\x1c', '\x85', '\u2028', '\u2029'] + (['\r'] if nlc == '\n' else []))
             lines[i] = lines[i] + extra + rng.choice(['tail', '+x', '-y', ''])
+    if rng.random() < 0.12:
+        # a long line with multi-byte characters around byte 256 (and 512) of the encoded line
+        i = rng.randrange(len(lines))
+        lines[i] = lines[i] + 'x' * rng.randint(236, 262) + 'é€é€' + ('y' * rng.randint(240, 260) + '€é' if rng.random() < 0.3 else '')
     text = nlc.join(lines) + (nlc if rng.random() < 0.9 else '')
     try:
         raw = text.encode(enc or 'latin-1')
@@ -100,7 +104,7 @@ def run(run, replay=None):
                        'INVARIANT Idempotent\nINVARIANT NonDestructive\nCHECK_DEADLOCK FALSE\n',
            note='GenAll on all small trees: exact, additive, idempotent, non-destructive')
     cat = Catalog()
-    cat.note('abcdefghijklmnopqrstuvwxyz/\\@+- \x0c\x0b\x1c\x85\u2028\u2029\r')
+    cat.note('abcdefghijklmnopqrstuvwxyz/\\@+- \x0c\x0b\x1c\x85\u2028\u2029\ré€')
     cases = []
     for n in range(1500 if quick else 40000):
         d = build(rng)
